@@ -1,5 +1,6 @@
 import EduceModel.Lemmas.Env
 import EduceModel.Spec.Clone
+import EduceModel.Generated.Templates
 /-
   C07 — Clone and clone_from reproduce the source value field by field.
 -/
@@ -388,5 +389,23 @@ example : Sem.evalClone exCloneOps exCloneType (body false exCloneType) ⟨1, [3
 example : Sem.evalCloneFrom exCloneOps exCloneType (body false exCloneType) ⟨1, [1, 2]⟩ ⟨1, [3, 4]⟩ = some ⟨1, [1003, 54]⟩ := by decide
 example : Sem.evalCloneFrom exCloneOps exCloneType (body false exCloneType) ⟨0, []⟩ ⟨2, [3, 4]⟩ = some ⟨2, [53, 4]⟩ := by decide
 example : Sem.evalCloneFrom exCloneOps exCloneType (body true exCloneType) ⟨2, [1, 2]⟩ ⟨2, [3, 4]⟩ = some ⟨2, [53, 2004]⟩ := by decide
+
+
+/-! ## What the generated code calls
+
+The absolute paths (`::core::..`) named by the `quote!` templates of the handler, regenerated from /repo/src on every run
+(`vtool extract`): the functions, traits and types the generated code can reach are exactly these - a call of anything
+else (`::core::ptr::eq`, `::core::fmt::Display::fmt`, `::core::convert::From::from`, ...) is a change of what the
+implementation does and has to be looked at. -/
+
+theorem generated_calls_unchanged_clone :
+    Generated.paths_trait_handlers_clone =
+      ["::core::clone::Clone", "::core::clone::Clone::clone", "::core::clone::Clone::clone_from", "::core::marker::Copy", "::core::unreachable"] := by
+  decide +kernel
+
+theorem generated_calls_unchanged_copy :
+    Generated.paths_trait_handlers_copy =
+      ["::core::clone::Clone", "::core::marker::Copy"] := by
+  decide +kernel
 
 end Educe
